@@ -10,7 +10,8 @@ MASK = (1 << 256) - 1
 OTHER_SENDER = 0xBEEF
 ORIGIN = 0xBEEF2
 CHEAT_KINDS = {"roll": "number", "roll_arg": "number", "fee": "basefee", "chainid": "chainid", "warp_arg": "timestamp"}
-SENDER_KINDS = {"only_sender", "not_sender"}
+SENDER_KINDS = {"only_sender", "not_sender", "caller_br"}
+READ_KINDS = {"xstep", "xset_if"}      # compare a slot (written by another function) with the constant "a"
 TIME_KINDS = {"after_ts", "before_ts", "store_ts", "ts_ge_slot"}
 
 
@@ -64,6 +65,55 @@ def spec_sender_ok(filters, s):
     es = filters.get("excludeSenders", [])
     eff = [t for t in ts if t not in es]
     return (s in eff) if eff else (s not in es)
+
+
+# ----------------------------------------------------------------------------- spec: state identity
+
+def spec_constraints(comp):
+    """Positions of the path conditions that constrain the symbols held in the state
+    (Spec/PathSliceSpec.v `constrains`): they mention such a symbol, or share a symbol with a
+    condition that does -- in either order.  Computed from the symbols of the terms."""
+    syms = [set(s) for s in comp["cond_syms"]]
+    reach, out = set(comp["state_syms"]), set()
+    changed = True
+    while changed:
+        changed = False
+        for i, s in enumerate(syms):
+            if i not in out and s & reach:
+                out.add(i)
+                reach |= s
+                changed = True
+    return out
+
+
+def spec_identity(comp, by_slice=False):
+    """Identity of a symbolic state at a transaction boundary (Spec/StateIdSpec.v same_identity):
+    balance term, code, storage terms per account (key words, value term) and the SET of path
+    conditions that constrain the symbols held in the state (by_slice: the conditions at the
+    positions of halmos' slice instead)."""
+    sl = set(comp["sliced"] or ()) if by_slice else spec_constraints(comp)
+    cons = frozenset(c for i, c in enumerate(comp["conds"]) if i in sl)
+    stor = tuple((a, tuple((tuple(k) if isinstance(k, list) else (k,), v) for k, v in items)) for a, items in comp["storage"])
+    return (comp["balance"], tuple(map(tuple, comp["code"])), stor, cons)
+
+
+def enc_components(comp):
+    """encoding for the extracted entry point c15_state_classes (see Extract/ExC15.v parse_xstate)"""
+    out = [comp["balance"], len(comp["code"])]
+    for a, c in comp["code"]:
+        out += [a, c]
+    out.append(len(comp["storage"]))
+    for a, items in comp["storage"]:
+        out += [a, len(items)]
+        for k, v in items:
+            out += ([1, len(k)] + list(k)) if isinstance(k, list) else [0, k]
+            out.append(v)
+    out += [len(comp["conds"])] + list(comp["conds"])
+    if comp["sliced"] is None:
+        out += [0, 0]
+    else:
+        out += [1, len(comp["sliced"])] + list(comp["sliced"])
+    return out
 
 
 # ----------------------------------------------------------------------------- reference-side execution
@@ -124,6 +174,8 @@ def domains(case, feats):
     for f in funcs:
         if f["kind"] in SENDER_KINDS:
             senders.append(f["k"])
+    if any(f["kind"] == "caller_br" for f in funcs):  # the stored sender is compared with these later on
+        senders += [f["a"] for f in funcs if f["kind"] in READ_KINDS]
     senders += list(filters.get("targetSenders", [])) + list(filters.get("excludeSenders", []))
     senders = [s for i, s in enumerate(senders) if s not in senders[:i]]
     adm = [s for s in senders if spec_sender_ok(filters, s)]
@@ -134,7 +186,17 @@ def domains(case, feats):
     for f in funcs:
         if f["kind"] in ("after_ts", "before_ts"):
             thresholds |= {f["k"], max(1, f["k"] - 1)}
-    return {"senders": adm, "thresholds": sorted(thresholds), "time": "time" in feats, "value": "value" in feats, "cheat": "cheat" in feats}
+    return {"senders": adm, "thresholds": sorted(thresholds), "time": "time" in feats, "value": "value" in feats, "cheat": "cheat" in feats,
+            "read_consts": sorted(f["a"] for f in funcs if f["kind"] in READ_KINDS)}
+
+
+def read_constants(case):
+    """constants a stored value is compared with by another function of the case (+-1)"""
+    ks = set()
+    for f in all_funcs(case):
+        if f["kind"] in READ_KINDS:
+            ks |= {f["a"], (f["a"] + 1) & MASK, (f["a"] - 1) & MASK}
+    return ks
 
 
 def arg_domain(f, extra=()):
@@ -154,6 +216,8 @@ def value_domain(f, dom):
         vs = [0, 1]
         if f["kind"] == "need_value":
             vs.append(f["k"])
+        if f["kind"] in ("value_br", "setv_rel"):
+            vs += [f["k"], f["k"] + 1] + list(dom.get("read_consts", []))
         return sorted(set(vs))
     return [0]
 
@@ -191,7 +255,7 @@ def brute(case, built, depth, feats=("time", "value", "cheat"), max_states=80):
     meths = methods_of(built, case)
     invs = case.get("invariants") or [case["invariant"]]
     accounts0, block0 = initial_state(built)
-    extra = set()
+    extra = read_constants(case)
     for inv in invs:
         if "k" in inv:
             extra |= {inv["k"], (inv["k"] + 1) & MASK, (inv["k"] - 1) & MASK}
@@ -465,6 +529,44 @@ def corpus():
     add("F12-probe", [{"name": "C0", "funcs": [inc, {"name": "bad", "kind": "assert_arg", "slot": 0, "a": 1, "k": 5}]}], {"kind": "true"}, 2)
     add("F12-probe-d1", [{"name": "C0", "funcs": [inc, {"name": "bad", "kind": "assert_arg", "slot": 0, "a": 1, "k": 5}]}], {"kind": "true"}, 1)
     add("value-balance", [{"name": "C0", "funcs": [{"name": "dep", "kind": "noop_payable", "payable": True}]}], {"kind": "bal_zero", "addr": C0}, 1)
+    # state identity covers the constraints on the symbols held in the state: set(x) { s = x; if (x > 9) {} else {} }
+    # ends in two states with the same storage term and different constraints; each side enables a different later call
+    fire_s = {"name": "fireS", "kind": "xset_if", "slot": 0, "a": 5, "t": 1, "b": 1}
+    fire_b = {"name": "fireB", "kind": "xset_if", "slot": 0, "a": 50, "t": 1, "b": 2}
+    setbr = {"name": "set", "kind": "setv_br", "slot": 0, "k": 9, "cmp": "gt"}
+    for side, b in (("small", 1), ("big", 2)):
+        add(f"branch-cond-arg-{side}", [{"name": "C0", "funcs": [setbr, fire_s, fire_b]}], {"kind": "slot_ne", "addr": C0, "slot": 1, "k": b}, 2)
+    add("branch-cond-arg-d3", [{"name": "C0", "funcs": [setbr, fire_b, {"name": "fin", "kind": "xstep", "slot": 1, "a": 2, "t": 1, "b": 3}]}],
+        {"kind": "slot_ne", "addr": C0, "slot": 1, "k": 3}, 3)
+    add("branch-cond-arg-late-store", [{"name": "C0", "funcs": [dict(setbr, late=True, cmp="lt", k=20), fire_s, fire_b]}], {"kind": "slot_ne", "addr": C0, "slot": 1, "k": 2}, 2)
+    add("branch-cond-arg-eq", [{"name": "C0", "funcs": [dict(setbr, cmp="eq", k=7), fire_s, {"name": "fireK", "kind": "xstep", "slot": 0, "a": 7, "t": 1, "b": 2}]}],
+        {"kind": "slot_ne", "addr": C0, "slot": 1, "k": 1}, 2)
+    for side, b in (("eq", 1), ("ne", 2)):
+        add(f"branch-cond-caller-{side}", [{"name": "C0", "funcs": [{"name": "reg", "kind": "caller_br", "slot": 0, "k": 0x1234, "cmp": "eq"},
+                                                                   {"name": "fireA", "kind": "xstep", "slot": 0, "a": 0x1234, "t": 1, "b": 1},
+                                                                   {"name": "fireB", "kind": "xstep", "slot": 0, "a": 0x99, "t": 1, "b": 2}]}],
+            {"kind": "slot_ne", "addr": C0, "slot": 1, "k": b}, 2)
+    add("branch-cond-value", [{"name": "C0", "funcs": [{"name": "dep", "kind": "value_br", "slot": 0, "k": 1, "cmp": "gt", "payable": True},
+                                                        {"name": "fireS", "kind": "xset_if", "slot": 0, "a": 1, "t": 1, "b": 1},
+                                                        {"name": "fireB", "kind": "xset_if", "slot": 0, "a": 3, "t": 1, "b": 2}]}],
+        {"kind": "slot_ne", "addr": C0, "slot": 1, "k": 2}, 2)
+    # ... and a branch on a symbol that is NOT held in the state: the two end states are identical (one frontier state)
+    add("branch-cond-unrelated", [{"name": "C0", "funcs": [dict(setbr, const=7), fire_s, {"name": "fireK", "kind": "xset_if", "slot": 0, "a": 7, "t": 1, "b": 2}]}],
+        {"kind": "slot_ne", "addr": C0, "slot": 1, "k": 2}, 2)
+    # the branch condition is on msg.value, tied to the stored argument by a later condition (arg == msg.value):
+    # a constraint of the state through the dependency closure of the slice
+    for side, b in (("lo", 1), ("hi", 2)):
+        add(f"branch-cond-related-{side}", [{"name": "C0", "funcs": [{"name": "set", "kind": "setv_rel", "slot": 0, "k": 9, "payable": True},
+                                                                     {"name": "fireS", "kind": "xset_if", "slot": 0, "a": 5, "t": 1, "b": 1},
+                                                                     {"name": "fireB", "kind": "xset_if", "slot": 0, "a": 50, "t": 1, "b": 2}]}],
+            {"kind": "slot_ne", "addr": C0, "slot": 1, "k": b}, 2)
+    # ... the same with the tying condition FIRST and the branch on msg.value after it: the branch condition is
+    # related to the stored symbol only through an EARLIER condition
+    for side, b in (("lo", 1), ("hi", 2)):
+        add(f"branch-cond-forward-{side}", [{"name": "C0", "funcs": [{"name": "set", "kind": "setv_rel", "slot": 0, "k": 9, "payable": True, "rel_first": True},
+                                                                     {"name": "fireS", "kind": "xset_if", "slot": 0, "a": 5, "t": 1, "b": 1},
+                                                                     {"name": "fireB", "kind": "xset_if", "slot": 0, "a": 50, "t": 1, "b": 2}]}],
+            {"kind": "slot_ne", "addr": C0, "slot": 1, "k": b}, 2)
     return cs
 
 
@@ -512,6 +614,44 @@ def gen_case(r, idx):
     if r.random() < 0.3:
         filters["excludeSenders"] = r.sample([0x1234, 0x99, 0x98], r.randint(1, 2))
     return {"name": f"gen-{idx}", "targets": targets, "invariant": inv, "depth": r.choice([0, 1, 2, 2, 3]), "filters": filters}
+
+
+def gen_branch_case(r, idx, max_depth=3):
+    """grammar for state identity: a function that stores a transaction value (argument / sender /
+    msg.value) and branches on it without changing storage differently (both end states carry the
+    same storage term, the constraint on the stored symbol differs), one or two functions enabled
+    by a stored value on a chosen side of the branch, optional bystander functions, depth 2..3."""
+    src = r.choice(["setv_br", "setv_br", "caller_br", "value_br", "setv_rel"])
+    cmp_ = "eq" if src == "caller_br" else "gt" if src == "setv_rel" else r.choice(["gt", "lt", "eq"])
+    K = r.choice([0x1234, 0x99]) if src == "caller_br" else r.randint(1, 40)
+    st = {"name": "set", "kind": src, "slot": 0, "k": K, "cmp": cmp_}
+    if src in ("value_br", "setv_rel"):
+        st["payable"] = True
+    if r.random() < 0.3:
+        st["late"] = True
+    if src == "setv_rel":
+        # the branch is on msg.value, tied to the stored argument by arg == msg.value before or after it
+        st.pop("late", None)
+        st["rel_first"] = r.random() < 0.5
+    if src == "caller_br":
+        inside, outside = [0x1234 if K == 0x1234 else 0x99], [0x99 if K == 0x1234 else 0x1234, 0x98]
+    else:
+        inside = {"gt": [K + 1, K + 7], "lt": [K - 1, max(0, K - 5)], "eq": [K]}[cmp_]
+        outside = {"gt": [K, max(0, K - 3)], "lt": [K, K + 4], "eq": [K + 1, max(0, K - 1)]}[cmp_]
+    side = r.choice(["in", "out"])
+    funcs = [st]
+    kinds = [r.choice(["xset_if", "xstep"]) for _ in range(2)]
+    funcs.append({"name": "fireI", "kind": kinds[0], "slot": 0, "a": r.choice(inside), "t": 1, "b": 1})
+    funcs.append({"name": "fireO", "kind": kinds[1], "slot": 0, "a": r.choice(outside), "t": 1, "b": 2})
+    if r.random() < 0.4:
+        funcs.append({"name": "inc", "kind": "inc", "slot": 0})
+    r.shuffle(funcs)
+    depth = min(max_depth, r.choice([2, 2, 3]))
+    inv = {"kind": "slot_ne", "addr": C0, "slot": 1, "k": 1 if side == "in" else 2}
+    filters = {}
+    if src == "caller_br" and r.random() < 0.4:
+        filters["targetSenders"] = [0x1234, 0x99, 0x98]
+    return {"name": f"gen-branch-{idx}", "targets": [{"name": "C0", "funcs": funcs}], "invariant": inv, "depth": depth, "filters": filters}
 
 
 def resolved_nonempty(case):
